@@ -562,16 +562,36 @@ func c20SetConstruction(c *Ctx) {
 	})
 	c.Ob("SET-CONSTRUCTION", "newFileAnnotationSet/dedup-and-sort", nf.Decl.Pos(), uses, true, "the stored slice is deduplicateAndSortFileAnnotations(input): %v", uses)
 	// comparator reads all printed fields
-	if cmp := p.Func("private/bufpkg/bufanalysis", "fileAnnotationCompareTo"); cmp != nil {
-		called := map[string]bool{}
-		ast.Inspect(cmp.Decl.Body, func(n ast.Node) bool {
-			if call, ok := n.(*ast.CallExpr); ok {
-				if sel, ok := call.Fun.(*ast.SelectorExpr); ok {
-					called[sel.Sel.Name] = true
-				}
+	var cmp *FuncRef
+	for _, fr := range p.FuncsOf(pk) {
+		// the comparator is found by its signature: func(FileAnnotation, FileAnnotation) int
+		if sig, ok := fr.Obj.Type().(*types.Signature); ok && sig.Recv() == nil && sig.Params().Len() == 2 && sig.Results().Len() == 1 && fr.Decl.Body != nil &&
+			strings.HasSuffix(namedPath(sig.Params().At(0).Type()), "bufanalysis.FileAnnotation") && strings.HasSuffix(namedPath(sig.Params().At(1).Type()), "bufanalysis.FileAnnotation") {
+			if b, ok := sig.Results().At(0).Type().Underlying().(*types.Basic); ok && b.Kind() == types.Int {
+				cmp = fr
 			}
-			return true
-		})
+		}
+	}
+	if cmp != nil {
+		called := map[string]bool{}
+		var collect func(fr *FuncRef, depth int)
+		collect = func(fr *FuncRef, depth int) {
+			ast.Inspect(fr.Decl.Body, func(n ast.Node) bool {
+				if call, ok := n.(*ast.CallExpr); ok {
+					if sel, ok := call.Fun.(*ast.SelectorExpr); ok {
+						called[sel.Sel.Name] = true
+					}
+					// steps of the comparison moved into helpers of the package
+					if fn := Callee(fr.Info(), call); fn != nil && fn.Pkg() == pk.Types && depth > 0 && fn != fr.Obj {
+						if hd := p.DeclOf(fn); hd != nil && hd.Decl.Body != nil && hd.Decl.Recv == nil {
+							collect(hd, depth-1)
+						}
+					}
+				}
+				return true
+			})
+		}
+		collect(cmp, 2)
 		var missing []string
 		for _, f := range []string{"FileInfo", "StartLine", "StartColumn", "EndLine", "EndColumn", "Type", "Message"} {
 			if !called[f] {
@@ -582,63 +602,125 @@ func c20SetConstruction(c *Ctx) {
 	} else {
 		c.Fail("SET-CONSTRUCTION", "fileAnnotationCompareTo", token.NoPos, "not found")
 	}
-	// identity key: consecutive variable-length writes into the hash need a delimiter
-	hf := p.Func("private/bufpkg/bufanalysis", "hash")
+	// identity key: consecutive variable-length writes into the hash need a delimiter (decided on SSA, on the function
+	// found by its signature func(FileAnnotation) string)
+	c20IdentityDelimited(c, pk)
+}
+
+// c20IdentityDelimited: along every path through the identity function, two writes of variable-length components into
+// the hash are separated by a write of a constant delimiter (line 1 column 23 and line 12 column 3 would otherwise
+// collide). The function may write statement by statement or from a loop over a list of components
+// (`if i > 0 { write(delimiter) }; write(component)`): after a back edge the loop index is positive, so the
+// index-is-zero edge is not followed.
+func c20IdentityDelimited(c *Ctx, pk *packages.Package) {
+	p := c.P
+	var hf *ssa.Function
+	for _, sf := range p.SSAFuncsOf([]*packages.Package{pk}) {
+		sig := sf.Signature
+		if sig.Recv() != nil || sig.Params().Len() != 1 || sig.Results().Len() != 1 || !strings.HasSuffix(namedPath(sig.Params().At(0).Type()), "bufanalysis.FileAnnotation") {
+			continue
+		}
+		if b, ok := sig.Results().At(0).Type().Underlying().(*types.Basic); ok && b.Kind() == types.String {
+			hf = sf
+		}
+	}
 	if hf == nil {
-		c.Fail("SET-CONSTRUCTION", "hash", token.NoPos, "not found")
+		c.Fail("SET-CONSTRUCTION", "identity-key", token.NoPos, "no func(FileAnnotation) string found in bufanalysis")
 		return
 	}
-	var seq []string // "var" | "const"
-	for _, st := range hf.Decl.Body.List {
-		var call *ast.CallExpr
-		switch s := st.(type) {
-		case *ast.AssignStmt:
-			if len(s.Rhs) == 1 {
-				call, _ = s.Rhs[0].(*ast.CallExpr)
+	isWrite := func(ins ssa.Instruction) (ssa.Value, bool) {
+		cl, ok := ins.(*ssa.Call)
+		if !ok || !cl.Call.IsInvoke() || !strings.HasPrefix(cl.Call.Method.Name(), "Write") || len(cl.Call.Args) != 1 || namedPath(cl.Call.Value.Type()) != "hash.Hash" {
+			return nil, false
+		}
+		return cl.Call.Args[0], true
+	}
+	var isConstBytes func(v ssa.Value, depth int) bool
+	isConstBytes = func(v ssa.Value, depth int) bool {
+		if depth == 0 {
+			return false
+		}
+		switch t := stripConv(v).(type) {
+		case *ssa.Const:
+			return true
+		case *ssa.Slice:
+			if al, ok := t.X.(*ssa.Alloc); ok {
+				for _, st := range storesInto(al) {
+					if _, isConst := st.(*ssa.Const); !isConst {
+						return false
+					}
+				}
+				return true
 			}
-		case *ast.ExprStmt:
-			call, _ = s.X.(*ast.CallExpr)
-		}
-		if call == nil {
-			continue
-		}
-		sel, ok := call.Fun.(*ast.SelectorExpr)
-		if !ok || !strings.HasPrefix(sel.Sel.Name, "Write") || len(call.Args) != 1 {
-			continue
-		}
-		if t := info.TypeOf(sel.X); t == nil || namedPath(t) != "hash.Hash" {
-			continue
-		}
-		// constant argument? ([]byte{0}, []byte("|"), constant string)
-		isConst := false
-		arg := call.Args[0]
-		if conv, ok := arg.(*ast.CallExpr); ok && len(conv.Args) == 1 {
-			if tv, has := info.Types[conv.Args[0]]; has && tv.Value != nil {
-				isConst = true
+		case *ssa.Phi:
+			for _, e := range t.Edges {
+				if !isConstBytes(e, depth-1) {
+					return false
+				}
 			}
+			return true
 		}
-		if cl, ok := arg.(*ast.CompositeLit); ok {
-			isConst = true
-			for _, e := range cl.Elts {
-				if tv, has := info.Types[e]; !has || tv.Value == nil {
-					isConst = false
+		return false
+	}
+	writes, varWrites := 0, 0
+	bad := 0
+	for _, b := range hf.Blocks {
+		for i, ins := range b.Instrs {
+			arg, ok := isWrite(ins)
+			if !ok {
+				continue
+			}
+			writes++
+			if isConstBytes(arg, 3) {
+				continue
+			}
+			varWrites++
+			// search forward for the next write on every path
+			type st struct {
+				b        *ssa.BasicBlock
+				from     int
+				backEdge bool
+			}
+			seen := map[*ssa.BasicBlock]bool{}
+			work := []st{{b, i + 1, false}}
+			for len(work) > 0 {
+				cur := work[len(work)-1]
+				work = work[:len(work)-1]
+				found := false
+				for _, in := range cur.b.Instrs[cur.from:] {
+					if a2, ok := isWrite(in); ok {
+						if !isConstBytes(a2, 3) {
+							bad++
+						}
+						found = true
+						break
+					}
+				}
+				if found {
+					continue
+				}
+				succs := cur.b.Succs
+				if iff := ifOf(cur.b); iff != nil && cur.backEdge {
+					// `i > 0` / `i != 0` on a loop index after a back edge: only the true edge
+					if bo, ok := iff.Cond.(*ssa.BinOp); ok && (bo.Op == token.GTR || bo.Op == token.NEQ) {
+						if k, isC := bo.Y.(*ssa.Const); isC && k.Value != nil && k.Value.ExactString() == "0" {
+							succs = succs[:1]
+						}
+					}
+				}
+				for _, s := range succs {
+					be := cur.backEdge || s.Dominates(cur.b)
+					if seen[s] && !(be && !cur.backEdge) {
+						continue
+					}
+					seen[s] = true
+					work = append(work, st{s, 0, be})
 				}
 			}
 		}
-		if isConst {
-			seq = append(seq, "const")
-		} else {
-			seq = append(seq, "var")
-		}
 	}
-	adjacent := 0
-	for i := 1; i < len(seq); i++ {
-		if seq[i] == "var" && seq[i-1] == "var" {
-			adjacent++
-		}
-	}
-	c.Ob("SET-CONSTRUCTION", "hash/delimited", hf.Decl.Pos(), adjacent == 0 && len(seq) >= 7, true,
-		"%d writes into the identity hash, %d pairs of adjacent variable-length components without a delimiter between them (e.g. line 1 col 23 and line 12 col 3 would collide)", len(seq), adjacent)
+	c.Ob("SET-CONSTRUCTION", "identity-key/delimited", hf.Pos(), bad == 0 && varWrites >= 1 && writes >= 2, true,
+		"%d write sites into the identity hash (%d of variable-length components); paths on which two variable-length components follow each other without a constant delimiter: %d (line 1 col 23 and line 12 col 3 would collide)", writes, varWrites, bad)
 }
 
 func c20Encoded(c *Ctx) {
